@@ -225,10 +225,12 @@ func (g *gen) genStatement(typ types.Type, this, that string) error {
 		p.In()
 		thatkey := thiskey
 		if !canCopy(keyType) {
-			if err := g.genField(keyType, thatkey, thiskey); err != nil {
+			// a key that holds references is copied into a variable of its own first.
+			thatkey = prepend(that, "key")
+			p.P("var %s %s", thatkey, g.TypeString(keyType))
+			if err := g.genField(keyType, thiskey, thatkey); err != nil {
 				return err
 			}
-			thatkey = prepend(that, "key")
 		}
 		if nullable(elmType) {
 			p.P("if %s == nil {", thisvalue)
